@@ -21,7 +21,7 @@ func init() {
 			"(5) the applier's read-only arm reaches PutInternal/DeleteInternal first; (6) startReplica sets the flag on every success path with ForceReadOnly, cmd/kevo passes ForceReadOnly:true; " +
 			"(7) GetNodeInfo's readOnly result is engine.IsReadOnly(), role is config.Mode, and the service copies results field to field.",
 		NotDecided: "that data stays byte-identical (follows from the guard dominating every effect); interleavings of client calls with replication apply; the window between replica.Start() and SetReadOnly(true) (reported as info).",
-		Rules:      []func(*Ctx, *Reporter){ruleC16Mutators, ruleC16Who, ruleC16Tx, ruleC16Applier, ruleC16Start, ruleC16NodeInfo},
+		Rules:      []func(*Ctx, *Reporter){ruleC16Mutators, ruleC16Who, ruleC16Tx, ruleC16Applier, ruleC16Start, ruleC16NodeInfo, ruleReflectiveDoors},
 	})
 }
 
